@@ -21,7 +21,7 @@ RULE = (
     "(screen hash, replacement kind, model, scorer, n_chunks, batch); non-trivial = >=1 masked row and >=1 observed row"
 )
 ASSUMPTIONS = ["observed values exactly 0 or 1 are outside the interaction model's transform (logit gives +-inf) and are not generated for it", "both members of a pair use the same seed and the same global numpy seed so that only masked values differ"]
-REQUIRED = {"refusals_checked_for_side_effects": {"quick": 200, "thorough": 2500}, "training_sets_with_values_above_one": {"quick": 40, "thorough": 500}, "two_batch_histories": {"quick": 100, "thorough": 1200}, "cli_pairs": {"quick": 6, "thorough": 40}, "cli_replacement_nan": {"quick": 1, "thorough": 6}, "pairs_compared": {"quick": 250, "thorough": 3000}, "artefacts_compared": {"quick": 1200, "thorough": 15000}, "training_set_checks": {"quick": 250, "thorough": 3000}, "refusals_checked": {"quick": 2000, "thorough": 25000}}
+REQUIRED = {"pairs_with_non_default_model_switches": {"quick": 80, "thorough": 1000}, "refusals_checked_for_side_effects": {"quick": 200, "thorough": 2500}, "training_sets_with_values_above_one": {"quick": 40, "thorough": 500}, "two_batch_histories": {"quick": 100, "thorough": 1200}, "cli_pairs": {"quick": 6, "thorough": 40}, "cli_replacement_nan": {"quick": 1, "thorough": 6}, "pairs_compared": {"quick": 250, "thorough": 3000}, "artefacts_compared": {"quick": 1200, "thorough": 15000}, "training_set_checks": {"quick": 250, "thorough": 3000}, "refusals_checked": {"quick": 2000, "thorough": 25000}}
 N_PAIRS = {"quick": 640, "thorough": 6400}
 
 
@@ -206,7 +206,7 @@ def run_shard(rec, tier, seed, shard, nshards):
         holders = []
         handed = []
         for ch in range(2):
-            model = MODELS[mname](experiment_space=ExperimentSpace.from_screen(screen), n_embedding_dimensions=cfg["D"])
+            model = MODELS[mname](experiment_space=ExperimentSpace.from_screen(screen), n_embedding_dimensions=cfg["D"], **cfg.get("model_kwargs", {}))
             try:
                 model.add_observations(sub)
             except ValueError as e:
@@ -265,6 +265,11 @@ def run_shard(rec, tier, seed, shard, nshards):
             scorer=str(rng.choice(["dbal", "dbal", "dbal-sub", "random", "size"])), batch=[int(x) for x in rng.choice(unobs, size=bsz, replace=False)] if bsz else [],
             policy=bool(rng.random() < 0.4), k=int(rng.integers(1, 3)),
         )
+        if rng.random() < 0.4:
+            # the constructor's switches, any combination (none of them makes a model look behind the mask)
+            names_ = ["mult_gamma_proc", "local_shrinkage"] + (["fake_intercept", "individual_eff", "predict_interactions", "interaction_log_transform"] if mname == "SparseDrugCombo" else [])
+            cfg["model_kwargs"] = {k_: bool(rng.random() < 0.5) for k_ in names_}
+            rec.count("pairs_with_non_default_model_switches")
         w = {"model": mname, "replacement": kind, "cfg": {k: v for k, v in cfg.items()}, "rows": int(A.size), "masked_rows": int((~A.observation_mask).sum()), "plates": {str(p): [int((kw["plate_names"] == p).sum()), bool(kw["observation_mask"][kw["plate_names"] == p][0])] for p in np.unique(kw["plate_names"])}}
         trA, trB = {}, {}
         try:
